@@ -88,7 +88,7 @@ func ruleConfirmCount() *Rule {
 				atoms = append(atoms, BoolAtom(fmt.Sprintf("quorum%d", k+1), q))
 			}
 			verFld := p.Field("Operation.quorumVerified")
-			renewFn := p.Func("(*lease).renew")
+			renewFns := leaseRenewFns(p)
 			tryFn := p.Func("(*Raft).tryApplyReadOnlyOperations")
 			L := enumIdx(stateAtom, "Leader")
 			run := func(root *ssa.Function) {
@@ -106,7 +106,7 @@ func ruleConfirmCount() *Rule {
 					}
 					if c, ok := in.(*ssa.Call); ok {
 						callee := c.Common().StaticCallee()
-						if callee != nil && callee == renewFn {
+						if callee != nil && renewFns[callee] {
 							o := a.Observe("call "+FuncName(callee)+" in "+chainKey(f), f, in, st)
 							o.Extra["kind"] = "verify"
 							o.Extra["fn"] = FuncName(f.Fn)
